@@ -3230,8 +3230,9 @@ def rerender(tree, root, seed=None, opts=None):
     p.regions = [dict(file=c["file"], start=c["span"][0], end=c["span"][1], cause="defm-class-in-multiclass", mode="inside")
                  for c in w.classrefs if c["ctx"] == "defm-class" and "multiclass" in c["path"].split("/")] + list(w.regions)
     # (the causes repaired in /repo keep their `Marked` wrappers in the tree, but no longer rename anything)
-    p.regions = [r_ for r_ in p.regions if r_["cause"] in ("def-with-string-name", "typed-empty-list")]
-    p.regions.sort(key=lambda r_: 0 if r_["cause"] == "def-with-string-name" else 1)      # the enclosing cause first
+    # (all of them are repaired now - also string-named defs, a94cf3d, and typed list literals, fea1d77: a discrepancy inside such a
+    # construct is reported under its own name, not under the construct's)
+    p.regions = []
     p.known_false_sites = list(w.known_false)
     p.known_false = sorted({k["kind"] for k in w.known_false})
     p.n_oos = sum(1 for u in p.uses if u["decl"] is None)
